@@ -328,6 +328,7 @@ class FunctionRun:
             if p.get("id") in self.cond_locals and self.tr.track_local(fn, p):
                 self.tracked_locals[p.get("id")] = p
         self.exit_states = []
+        self.store_old = TOP
         self.pe_used = set()
         for b, ln, n in fn.nodes():
             if "pe" in n and n.get("k") != "int":
@@ -1226,6 +1227,8 @@ class FunctionRun:
         for s in outs:
             ns = dict(s)
             key = None
+            k0 = self.key_of(l0) if l0 is not None else None
+            self.store_old = s.get(k0, TOP) if k0 is not None else TOP
             if root is not None:
                 if root[0] == "var" and l0 is root[2] and (l0.get("t") or "").endswith("*"):
                     # the pointer now names another object: facts held about the fields reached
